@@ -67,7 +67,9 @@ def _cmp_values(a, b):
         with np.errstate(all='ignore'):
             s = np.maximum(np.abs(x), np.abs(y))
             e = np.abs(x - y)
-        e = np.where(np.isnan(e), np.inf, e)
+        # an environment in which both sides are undefined (sqrt/log outside their domain, 0/0) decides nothing; one side only is a deviation
+        both_undefined = ~np.isfinite(x) & ~np.isfinite(y)
+        e = np.where(both_undefined, 0.0, np.where(np.isnan(e), np.inf, e)); s = np.where(both_undefined, 0.0, s)
         bad = e / (s + 1.0)
         worst = max(worst, float(np.max(bad))); scale = max(scale, float(np.nanmax(s)) if s.size else 0.0)
     return worst, scale
